@@ -291,9 +291,18 @@ def rule_tower_constants(ctx, cfg, prog):
 
 def table_role(fn, gid):
     """which member of `this` is multiplied by table gid (looks at this->cK.multiply(..., T[...]))"""
+    # reference locals bound to an entry of the table stand for it
+    alias = set()
+    for n in walk(fn['body']):
+        if n.get('k') == 'decl':
+            for v in n['vars']:
+                if (v.get('t') or {}).get('k') == 'ref' and v.get('init') is not None and \
+                        any(x.get('k') == 'ref' and x.get('g') == gid for x in walk(v['init'])):
+                    alias.add(v['id'])
     for n in walk(fn['body']):
         if n.get('k') == 'call' and n.get('name') == 'multiply':
-            uses = any(x.get('k') == 'ref' and x.get('g') == gid for a in n['args'] for x in walk(a))
+            uses = any(x.get('k') == 'ref' and (x.get('g') == gid or (x.get('rk') == 'local' and x.get('id') in alias))
+                       for a in n['args'] for x in walk(a))
             if uses:
                 th = strip(n.get('this'))
                 if th and th.get('k') == 'member':
